@@ -1,18 +1,262 @@
 package harness
 
 import (
+	"bytes"
+	"crypto/ed25519"
 	"crypto/tls"
+	"crypto/x509"
+	"crypto/x509/pkix"
 	"fmt"
+	"io"
+	"math/big"
+	"net"
+	"sync"
+	"time"
+
+	"verif/pgwire"
 )
+
+type detRand struct{ r *Rand }
+
+func (d *detRand) Read(p []byte) (int, error) {
+	for i := range p {
+		p[i] = byte(d.r.U64())
+	}
+	return len(p), nil
+}
+
+var (
+	certOnce sync.Once
+	certVal  tls.Certificate
+	certErr  error
+)
+
+var tlsFixedTime = time.Date(2020, 6, 1, 0, 0, 0, 0, time.UTC)
+
+func testCertificate() (tls.Certificate, error) {
+	certOnce.Do(func() {
+		seed := bytes.Repeat([]byte{0x42}, ed25519.SeedSize)
+		priv := ed25519.NewKeyFromSeed(seed)
+		tmpl := &x509.Certificate{
+			SerialNumber: big.NewInt(1),
+			Subject:      pkix.Name{CommonName: "psql-wire.sim"},
+			NotBefore:    time.Date(1999, 1, 1, 0, 0, 0, 0, time.UTC),
+			NotAfter:     time.Date(2099, 1, 1, 0, 0, 0, 0, time.UTC),
+			KeyUsage:     x509.KeyUsageDigitalSignature,
+			ExtKeyUsage:  []x509.ExtKeyUsage{x509.ExtKeyUsageServerAuth},
+			DNSNames:     []string{"psql-wire.sim"},
+		}
+		der, err := x509.CreateCertificate(&detRand{NewRand(7)}, tmpl, tmpl, priv.Public(), priv)
+		if err != nil {
+			certErr = err
+			return
+		}
+		certVal = tls.Certificate{Certificate: [][]byte{der}, PrivateKey: priv}
+	})
+	return certVal, certErr
+}
 
 func serverTLSConfig(kind string) (*tls.Config, error) {
 	switch kind {
 	case "empty":
 		return &tls.Config{}, nil
 	case "certs":
-		return certConfig()
+		cert, err := testCertificate()
+		if err != nil {
+			return nil, err
+		}
+		return &tls.Config{
+			Certificates: []tls.Certificate{cert},
+			Rand:         &detRand{NewRand(1001)},
+			Time:         func() time.Time { return tlsFixedTime },
+			MinVersion:   tls.VersionTLS12,
+		}, nil
 	}
 	return nil, fmt.Errorf("unknown tls kind %q", kind)
 }
 
-func certConfig() (*tls.Config, error) { return nil, fmt.Errorf("tls certs: not built yet") }
+// ---------------------------------------------------------------------------
+// duplex mode of SimConn: a real client goroutine (crypto/tls) on the other
+// end. Both directions are queues owned by the SimConn; every operation of
+// either party is a schedule point.
+
+//go:norace
+func (c *SimConn) c2sReady() bool { return len(c.c2s) > 0 || c.c2sClosed }
+
+//go:norace
+func (c *SimConn) s2cReady() bool { return len(c.Raw) > c.s2cRead || c.Closed > 0 }
+
+func (c *SimConn) duplexRead(p []byte) (int, error) {
+	c.rt.K.Yield(c.task, "read")
+	c.Started = true
+	c.ops++
+	if c.Closed > 0 {
+		c.AfterEnd++
+		if c.AfterEnd > afterEndBudget {
+			c.wedge("reads continue after the server closed the connection")
+		}
+		return 0, net.ErrClosed
+	}
+	if len(c.c2s) == 0 && !c.c2sClosed {
+		c.rec("read-wait", "")
+		c.Quiesce = append(c.Quiesce, len(c.Out))
+		c.rt.K.Block(c.task, "read-wait", c.c2sReady)
+	}
+	if len(c.c2s) == 0 {
+		c.AfterEnd++
+		if c.AfterEnd > afterEndBudget {
+			c.wedge("reads continue after end of input")
+		}
+		c.rec("read", "eof")
+		return 0, io.EOF
+	}
+	n := len(p)
+	if len(c.cc.Cuts) > 0 {
+		if cut := c.cc.Cuts[c.reads%len(c.cc.Cuts)]; cut > 0 && cut < n {
+			n = cut
+		}
+	}
+	c.reads++
+	if n > len(c.c2s) {
+		n = len(c.c2s)
+	}
+	copy(p, c.c2s[:n])
+	c.c2s = c.c2s[n:]
+	c.inBytes += int64(n)
+	return n, nil
+}
+
+// clientEnd is the client's net.Conn.
+type clientEnd struct {
+	c    *SimConn
+	task int
+}
+
+func (e *clientEnd) Write(p []byte) (int, error) {
+	e.c.rt.K.Yield(e.task, "cwrite")
+	if e.c.Closed > 0 {
+		return 0, net.ErrClosed
+	}
+	e.c.c2s = append(e.c.c2s, p...)
+	e.c.TapC2S = append(e.c.TapC2S, p...)
+	return len(p), nil
+}
+
+func (e *clientEnd) Read(p []byte) (int, error) {
+	e.c.rt.K.Yield(e.task, "cread")
+	if len(e.c.Raw) <= e.c.s2cRead && e.c.Closed == 0 {
+		e.c.rt.K.Block(e.task, "cread-wait", e.c.s2cReady)
+	}
+	if len(e.c.Raw) <= e.c.s2cRead {
+		return 0, io.EOF
+	}
+	n := copy(p, e.c.Raw[e.c.s2cRead:])
+	e.c.s2cRead += n
+	return n, nil
+}
+
+func (e *clientEnd) Close() error {
+	e.c.rt.K.Yield(e.task, "cclose")
+	e.c.c2sClosed = true
+	return nil
+}
+func (e *clientEnd) LocalAddr() net.Addr                { return SimAddr{-3} }
+func (e *clientEnd) RemoteAddr() net.Addr               { return SimAddr{-4} }
+func (e *clientEnd) SetDeadline(t time.Time) error      { return nil }
+func (e *clientEnd) SetReadDeadline(t time.Time) error  { return nil }
+func (e *clientEnd) SetWriteDeadline(t time.Time) error { return nil }
+
+// runTLSClient is the scripted client goroutine of a duplex connection: it
+// sends the SSLRequest (optionally with plaintext stuffed behind it), reads
+// the one-byte answer, performs the TLS handshake and then plays the
+// connection's steps inside TLS, reading after each step exactly the number of
+// plaintext bytes the reference (plaintext) run produced for that step.
+func runTLSClient(rt *Runtime, cs *connState, task int) {
+	cc := cs.cc
+	tc := cc.TLS
+	end := &clientEnd{c: cs.SimConn, task: task}
+	note := func(k, s string) {
+		if rt.isFrozen() {
+			return
+		}
+		cs.ClientEvents = append(cs.ClientEvents, Event{Seq: rt.K.Seq(), K: k, S: s})
+	}
+	defer func() {
+		if r := recover(); r != nil {
+			note("client-panic", fmt.Sprint(r))
+		}
+		end.Close()
+		note("client-done", "")
+	}()
+	rt.K.Yield(task, "client.start")
+	first := (&pgwire.FMsg{K: "ssl"}).Bytes()
+	if tc.PreSplit || len(tc.Pre) == 0 {
+		end.Write(first) //nolint:errcheck
+		if len(tc.Pre) > 0 {
+			end.Write(tc.Pre) //nolint:errcheck
+		}
+	} else {
+		end.Write(append(append([]byte{}, first...), tc.Pre...)) //nolint:errcheck
+	}
+	var ans [1]byte
+	if _, err := io.ReadFull(end, ans[:]); err != nil {
+		note("ssl-answer", "none: "+err.Error())
+		return
+	}
+	note("ssl-answer", string(ans[:]))
+	cs.SSLAnswer = ans[0]
+	if ans[0] != 'S' {
+		return
+	}
+	if tc.SSLTwice {
+		// a second SSLRequest in plaintext instead of the ClientHello
+		end.Write(first) //nolint:errcheck
+	}
+	if tc.AbortAt > 0 {
+		// the peer vanishes in the middle of the handshake
+		hello := make([]byte, tc.AbortAt)
+		copy(hello, []byte{22, 3, 1, 0, 200, 1, 0, 0, 196, 3, 3})
+		end.Write(hello) //nolint:errcheck
+		note("client-abort", "")
+		return
+	}
+	cfg := &tls.Config{InsecureSkipVerify: true, Rand: &detRand{NewRand(rt.C.Sub ^ 0x7715)}, Time: func() time.Time { return tlsFixedTime },
+		MinVersion: tc.MinVer, MaxVersion: tc.MaxVer, ServerName: "psql-wire.sim"}
+	conn := tls.Client(end, cfg)
+	if err := conn.Handshake(); err != nil {
+		note("handshake", "failed: "+err.Error())
+		return
+	}
+	note("handshake", fmt.Sprintf("ok version=%x", conn.ConnectionState().Version))
+	cs.TLSUp = true
+	for si, st := range cc.Steps {
+		var buf []byte
+		for i := range st.Msgs {
+			buf = append(buf, st.Msgs[i].Bytes()...)
+		}
+		if len(buf) > 0 {
+			if _, err := conn.Write(buf); err != nil {
+				note("client-write", "failed: "+err.Error())
+				return
+			}
+		}
+		want := 0
+		if si < len(tc.StepBytes) {
+			want = tc.StepBytes[si]
+		}
+		got := make([]byte, want)
+		n, err := io.ReadFull(conn, got)
+		cs.Plain = append(cs.Plain, got[:n]...)
+		if err != nil {
+			note("client-read", fmt.Sprintf("step %d: got %d of %d bytes: %v", si, n, want, err))
+			return
+		}
+	}
+	// the server must have nothing more to say: close our side and drain
+	conn.CloseWrite() //nolint:errcheck
+	rest, _ := io.ReadAll(conn)
+	cs.Plain = append(cs.Plain, rest...)
+	if len(rest) > 0 {
+		note("client-read", fmt.Sprintf("%d surplus bytes after the last step", len(rest)))
+	}
+}
